@@ -473,6 +473,8 @@ func Register(names ...string) error {
 			p = ExtWideProfile{}
 		case ExtRawName:
 			p = ExtRawProfile{}
+		case ExtSubName:
+			p = ExtSubProfile{}
 		default:
 			return errors.New("unknown extension profile " + n)
 		}
@@ -574,6 +576,52 @@ func (ExtRawProfile) GetClaims() psatoken.IClaims {
 		panic(err)
 	}
 	return &ExtRawClaims{P2Claims: psatoken.P2Claims{Profile: &p, SwComponents: &psatoken.SwComponents[*psatoken.SwComponent]{}, CanonicalProfile: ExtRawName}}
+}
+
+// ---- a COMPOSITE extension of profile 2: one claim carries the complete token of a
+// sub-attester, which the type's own decoder decodes (a second, nested evidence decode
+// while the outer one is still in progress - seeded fault C02-v) -------------------------
+
+const ExtSubName = "http://example.com/psa-composite/1.0.0"
+
+type ExtSubClaims struct {
+	psatoken.P2Claims
+	Sub *[]byte `cbor:"-75950,keyasint,omitempty" json:"x-sub-token,omitempty"`
+	// the decoded sub-attester token (bookkeeping, not a claim)
+	SubEvidence *psatoken.Evidence `cbor:"-" json:"-"`
+}
+
+func (o *ExtSubClaims) Validate() error { return psatoken.ValidateClaims(o) }
+
+func (o ExtSubClaims) MarshalCBOR() ([]byte, error) { return encoding.SerializeStructToCBOR(EM, &o) }
+func (o *ExtSubClaims) UnmarshalCBOR(data []byte) error {
+	if err := encoding.PopulateStructFromCBOR(DM, data, o); err != nil {
+		return err
+	}
+	o.SubEvidence = nil
+	if o.Sub != nil {
+		ev, err := psatoken.DecodeEvidenceFromCOSE(*o.Sub)
+		if err != nil {
+			return errors.New("sub-attester token: " + err.Error())
+		}
+		o.SubEvidence = ev
+	}
+	return nil
+}
+func (o ExtSubClaims) MarshalJSON() ([]byte, error) { return encoding.SerializeStructToJSON(&o) }
+func (o *ExtSubClaims) UnmarshalJSON(data []byte) error {
+	return encoding.PopulateStructFromJSON(data, o)
+}
+
+type ExtSubProfile struct{}
+
+func (ExtSubProfile) GetName() string { return ExtSubName }
+func (ExtSubProfile) GetClaims() psatoken.IClaims {
+	p := eat.Profile{}
+	if err := p.Set(ExtSubName); err != nil {
+		panic(err)
+	}
+	return &ExtSubClaims{P2Claims: psatoken.P2Claims{Profile: &p, SwComponents: &psatoken.SwComponents[*psatoken.SwComponent]{}, CanonicalProfile: ExtSubName}}
 }
 
 // ---- generic numbered profiles (for registry histories) ------------------------------
